@@ -18,7 +18,10 @@ RULE = ("(a) random pairs of consistently typed feature structures (atomic featu
         "obtained by instantiating the variables over the domain; returned parse trees are checked against the "
         "underlying CFG. Non-trivial: structures with >=3 leaves / grammars with >=3 productions.")
 LEVEL = "proof"
-THEOREMS = ["Pfl.FS.unify_none_iff",
+THEOREMS = ["Pfl.FsDag.unifySFS_ok",
+            "Pfl.FsDag.unifySFS_conflict",
+            "Pfl.FsDag.unifySFS_terminates",
+            "Pfl.FS.unify_none_iff",
             "Pfl.FS.unify_facts",
             "Pfl.FS.unify_wt",
             "Pfl.FS.unify_comm",
